@@ -471,9 +471,18 @@ func main() {
 		"coverage": cov, "assumptions": p.Assumptions, "wall_s": wall, "violations": nViol,
 	}
 	if !tooling || nViol > 0 {
-		os.MkdirAll(filepath.Join(verifRoot, "evidence"), 0755)
+		// evidence describes the repository itself; runs against another tree (seeded changes,
+		// older commits via VERIF_REPO) must not overwrite it
+		evDir := filepath.Join(verifRoot, "evidence")
+		if repo != "/repo" {
+			evDir = filepath.Join(wire.ScratchBase(), "verif-evidence-other-tree")
+		}
+		if v := os.Getenv("VERIF_EVIDENCE_DIR"); v != "" {
+			evDir = v
+		}
+		os.MkdirAll(evDir, 0755)
 		j, _ := json.MarshalIndent(ev, "", " ")
-		os.WriteFile(filepath.Join(verifRoot, "evidence", id+".json"), j, 0644)
+		os.WriteFile(filepath.Join(evDir, id+".json"), j, 0644)
 	}
 	fmt.Printf("%s %s: cases=%d distinct_nontrivial=%d steps=%d faults=%v violations=%d known=%d wall=%.1fs\n", id, tier, merged.Cases, distinct, merged.Steps, merged.Faults, nViol, len(knownFired), wall)
 	switch {
